@@ -659,3 +659,4 @@ LEVEL_TEXT = (
     "character), reported positions and the documented rendering are checked on each. Complete within those bounds; no sampling."
 )
 LEVEL_NOTE = "Trusted: CPython re/str/exec, the 60-line reference segmenter (documented rules only, DONT_CARE elsewhere). The polynomial-time clause is measured (doubling) per enumerated family, not proven."
+READY = True
